@@ -27,6 +27,11 @@ MODELS = {
     "lips": dict(cls="LipschitzStronglyMonotoneOperator", par=0, pattern="sf", metric="dist", init="dist", n=2),
     "nonexp": dict(cls="NonexpansiveOperator", par=0, pattern="sf", metric="grad", init="dist", n=2),
     "inexact": dict(cls="SmoothStronglyConvexFunction", par=0, pattern="sf", step="inexact_rel", metric="dist", init="dist", n=1),
+    # the objective is not the first declared metric
+    "metrics": dict(cls="SmoothStronglyConvexFunction", par=0, pattern="sf", metric="dist", init="dist", n=1, extras=["two_metrics_low"]),
+    # leaves (a point and a function value) are created AFTER the objective, while the class constraints are generated
+    "qg_none": dict(cls="ConvexQGFunction", par=0, pattern="none", metric="negdist", init="dist", n=1),
+    "rsi_none": dict(cls="RsiEbFunction", par=0, pattern="none", metric="negdist", init="dist", n=2),
 }
 HEUR = ["trace", "logdet1", "logdet2", "logdet3"]
 TOLS = [1e-6, 1e-4, 1e-3, 1e-2]
@@ -97,6 +102,8 @@ def judge(case):
             probs.append(("certificate:sign:%s" % be, "multiplier sign / PSD violated after the heuristic (%.2e / %.2e)" % (cert["lam_min"], cert["psd_min"])))
     except Exception as e:
         probs.append(("certificate:raised:%s:%s" % (be, type(e).__name__), str(e)[:150]))
+    for k, m in CERT.wrapper_duals(pep):
+        probs.append((k + ":" + be, m + " (after %s)" % case["heuristic"]))
     val = float(r["value"])
     if case["mode"] == "dual":
         if abs(val - ref["dual"]) > eps:
